@@ -28,7 +28,14 @@ def status_polarity(cond, optimal_terms):
         c = c[1]
     if c[0] == 'cmp' and c[1] in ('Eq', 'NotEq', 'Is', 'IsNot'):
         a, b = c[2], c[3]
-        other = b if has_status(a) else a
+        side, other = (a, b) if has_status(a) else (b, a)
+        raw = side[0] == 'attr' and side[2] == 'status'          # the integer code itself, not the LpStatus[...] string
+        if raw:
+            codes = {x[1] for x in optimal_terms if isinstance(x, tuple) and x and x[0] == 'rawcode'}
+            if other in codes:
+                is_eq = c[1] in ('Eq', 'Is')
+                return ('opt', is_eq != neg)
+            return ('other', None)
         if other in optimal_terms:
             is_eq = c[1] in ('Eq', 'Is')
             return ('opt', is_eq != neg)
